@@ -169,8 +169,15 @@ func msgBrief(m wire.Message) string {
 	return m.Command()
 }
 
+const msgCap = 150000
+
 func (ns *NodeSim) noteSent(ev WireEvent) {
 	ns.SentLog = append(ns.SentLog, ev)
+	if len(ns.SentLog) > msgCap && !ns.S.StepCap {
+		// a request storm that does not end: stop the run as inconclusive rather than exhaust memory
+		ns.S.StepCap = true
+		ns.S.MaxSteps = 0
+	}
 	simrt.Eventf("peer>node", "%s %s", ev.Conn, msgBrief(ev.Msg))
 }
 
